@@ -35,7 +35,7 @@ ASSUMPTIONS = [
 ]
 REQUIRED_REACH = {"monitor.baseline_metrics": 300, "contract.safe_divide": 1000, "monitor.reporting_metrics": 50,
                   "monitor.caltrack_metrics": 50, "monitor.hourly_stored_vs_predict": 3, "monitor.hourly_gate": 6,
-                  "monitor.daily_error": 4, "monitor.daily_gate": 4, "ratio.undefined_expected": 20, "monitor.hourly_gate_undefined_metric": 2, "monitor.hourly_gate_undefined_metric_straddled": 3, "data.hourly_weather_gaps_away_from_meter_gaps": 4, "monitor.reporting_metrics_local_zone_index": 20, "monitor.daily_model_object_reused": 2, "edge.level_huge_relative_to_spread": 20}
+                  "monitor.daily_error": 4, "monitor.daily_gate": 4, "ratio.undefined_expected": 20, "monitor.hourly_gate_undefined_metric": 1, "monitor.hourly_gate_undefined_metric_straddled": 2, "data.hourly_weather_gaps_away_from_meter_gaps": 4, "monitor.reporting_metrics_local_zone_index": 20, "monitor.daily_model_object_reused": 2, "edge.level_huge_relative_to_spread": 20}
 
 VIOL = []
 CTX = {"where": "direct"}
